@@ -543,6 +543,19 @@ class TimedStream(Lane):
             if got != k: bad = f'{got} of {k} delivered entries were returned after the server closed the connection: {json.dumps(nx)[:120]}'
             elif not (isinstance(fin, dict) and fin.get('ok', {}).get('rc') == 3): bad = f'the delivered final result was not returned: {json.dumps(fin)[:100]}'
             return bool(bad), 'delivered-items-lost-on-close', f'search answered completely, then connection closed: {bad}' if bad else None, case, {'native': v['steps']}
+        if 'closed item channel' in obname or 'Error state after a failure' in obname:
+            # the connection dies in the middle of a search: k entries arrived, then the server hangs up
+            k = 0
+            for a in answers:
+                if a != 'item': break
+                k += 1
+            case = script([BIND, stream_start([])] + [{'do': 'next'}] * (k + 1) + [{'do': 'state'}], [BIND_OK, {'replies': [{'id': 'req', 'op': ENTRY}] * k, 'close_after': True}])
+            v = native([case])[0]['value']
+            nx = [s_['r'] for s_ in v['steps'] if s_['do'] == 'next']; stt = step(v, 'state')
+            bad = None
+            if not (isinstance(nx[-1], dict) and nx[-1].get('err') == 'EndOfStream'): bad = f'next() after the connection was lost mid-search returned {json.dumps(nx[-1])[:80]} instead of EndOfStream'
+            elif stt != 'Error': bad = f'the stream state after the failure is {stt}'
+            return bool(bad), 'search-cut-short-looks-complete', f'connection lost in the middle of a search: {bad}' if bad else None, case, {'native': v['steps']}
         if 'elapsed' not in answers or not cd['timed']:
             # a stream that fails (or is simply abandoned) while the search is still open at the server, then finish():
             # natively the failure comes from an adapter rejecting an item after `k` delivered ones
@@ -593,6 +606,9 @@ def extra_lanes(chk, pid):
         run_lane(chk, StreamMachine, ('C10', mc, [None, 'EntriesOnly'], scripts), bounds={'item scripts': scripts, 'call sequences': f'every word over next/finish/state of length 1..{mc}', 'adapters': 'direct | EntriesOnly',
                                                                                  'contents': 'entry/reference bytes, result code, control criticality symbolic'}, selftest=False, need_regions=('None', 'EntriesOnly'))
         run_lane(chk, SearchCollect, (), bounds={'item scripts': ['ED', 'ERIED', 'D', 'RD', 'EX'], 'contents': 'symbolic'}, selftest=False, need_regions=('ERIED', 'EX'))
+    if pid == 'C04':
+        # the collecting search(): a connection lost before SearchResultDone is an error, never a (partial) result
+        run_lane(chk, SearchCollect, (), bounds={'item scripts': ['ED', 'ERIED', 'D', 'RD', 'EX'], 'contents': 'symbolic'}, selftest=False, need_regions=('EX',))
     if pid in ('C04', 'C12', 'C13'):
         run_lane(chk, OpCall, (pid,), bounds={'reply wait': 'timed or not', 'request channel': 'open | closed', 'answer': 'reply | reply channel closed | timer elapsed', 'scrub channel': 'open | closed'}, selftest=False,
                  need_regions=('reply', 'closed', 'elapsed+timed'))
